@@ -118,6 +118,20 @@ reg('C08', True,
     'uniformReal never returning its upper end point.',
     'clang 14 AST/CFG of 17 units; the RNG contract ([a,b) for uniformReal) and the validity checker are assumptions',
     'finite-domain abstract execution with an adversarial RNG oracle + typestate over clang CFG + call-site alias rule')
-for _p in ['C01', 'C02', 'C03', 'C06', 'C07', 'C14', 'C15', 'C16',
+reg('C03', True,
+    'Decides structural clauses over every planner: in 39 solve() functions a solution status is returned only on paths '
+    'that registered a solution path and the status flag equals the registered flag (path-sensitive, verdict booleans, '
+    'pointer null-ness, smart-pointer truthiness, status enum locals; reasoned exceptions for planners that answer from '
+    'the problem definition or an earlier solve); every path-assembly loop covers all extracted nodes including index '
+    '0; temporaries from allocState/cloneState are released on every path to every return in all functions reachable '
+    'from a solve(); every clear() override chains to its base and resets node-pointer members assigned by solve(); '
+    'pointer members deleted in re-runnable functions are re-assigned; PlannerInputStates resets every per-query field, '
+    'clears iff the problem definition changed and hands out only states that passed satisfiesBounds and isValid; '
+    'growth loops consult the termination condition; setProblemDefinition overrides clear the query unconditionally. '
+    'Not decided: a bound on further evaluations, cost monotonicity across resumed solves (C04), leaks inside callee '
+    'libraries.',
+    'clang 14 AST/CFG of 131 units (all geometric, control and multilevel planners); call graph by CHA',
+    'path-sensitive typestate with relevance slicing over clang CFG + acquire/release pairing + sibling agreement')
+for _p in ['C01', 'C02', 'C06', 'C07', 'C14', 'C15', 'C16',
            'C17', 'C20']:
     reg(_p, False, '', '', '', PENDING)
